@@ -150,6 +150,21 @@ def search(chk, broken):
                 chk.failures.append(Failure('column:' + bad[0].split()[0], f'row at {x:.1f} ft (flag {r.flag}): ' + '; '.join(bad),
                                             {'op': 'row-columns', 'x_ft': x, 'y_ft': y, 'v_fps': v, 'look_rad': L, 'flag': int(r.flag)}))
                 break
+        # the same rifle under another atmosphere on the SAME calculator: rows must still follow that shot's own atmosphere
+        if (shot.ammo.dm.length >> U.Inch) > 0 and (shot.ammo.dm.diameter >> U.Inch) > 0 and (shot.weapon.twist >> U.Inch) != 0:
+            import copy as _copy
+            s2 = _copy.copy(shot)
+            s2.atmo = pbc.Atmo(U.Foot(rng.uniform(0, 9000)), U.hPa(rng.uniform(650, 1050)), U.Celsius(rng.uniform(-25, 40)), rng.uniform(0, 1))
+            try:
+                used = calc.fire(s2, U.Foot(R), U.Foot(R / 4)).trajectory
+                fresh = pbc.Calculator(_config=cfg).fire(s2, U.Foot(R), U.Foot(R / 4)).trajectory
+                evals += 1
+                if [r.windage.raw_value for r in used] != [r.windage.raw_value for r in fresh]:
+                    chk.failures.append(Failure('stale-per-shot-state', 'windage (spin drift) of a shot depends on the shot previously fired with the same calculator: '
+                                                                        f'{used[-1].windage.raw_value} vs {fresh[-1].windage.raw_value} in on a fresh calculator',
+                                                {'op': 'reuse', 'R': R}))
+            except Exception:  # noqa
+                pass
         # spin drift: same shot with and without twist
         if (shot.ammo.dm.length >> U.Inch) > 0 and (shot.ammo.dm.diameter >> U.Inch) > 0:
             import copy
